@@ -31,7 +31,7 @@ META = {
         "correlation entries with a zero-variance column or < 2 rows, and covariance entries of cells with < 2 (complete) "
         "rows, are mathematically undefined and are not compared",
         "weighted quantile: only the missing rule, invariance under rescaling all weights by a power of two, and "
-        "min <= result <= max of the cell's valid values are demanded; weights strictly positive",
+        "min <= result <= max of the cell's valid values are demanded; weights are non-negative (one input in four keeps rows of weight 0; a cell whose valid rows all weigh 0 has no reading and is not compared)",
         "scalar weights for stddev/covariance and weights for corrcoef are outside the quantifier and not generated"],
 }
 
